@@ -284,7 +284,19 @@ impl Cat {
                 Cucumber::rule_finished(self.feat(*f).src.clone(), self.rule(*f, *r).src.clone())
             }
             AEv::Scen(k, ret, se) => {
-                let caps = || Regex::new("").unwrap().capture_locations();
+                // capture locations as `Collection::find` would hand them over: none, flat groups, or NESTED
+                // groups (an inner group ending before the outer one), read against the step's own text
+                let (bg_i, st_text) = match se {
+                    ASc::Bg(i, _) => (*i, self.step_src(k, true, *i).value.clone()),
+                    ASc::Step(i, _) => (*i, self.step_src(k, false, *i).value.clone()),
+                    _ => (0, String::new()),
+                };
+                let caps = || {
+                    let re = Regex::new([r"", r"^(\w+) (\d+)$", r"^((\w+) (\d+))$"][bg_i % 3]).unwrap();
+                    let mut locs = re.capture_locations();
+                    let _ = re.captures_read(&mut locs, &st_text);
+                    locs
+                };
                 let step_ev = |r: &ARes| -> event::Step<PW> {
                     match r {
                         ARes::Started => event::Step::Started,
